@@ -14,11 +14,11 @@ import (
 func init() {
 	register(
 		&Rule{ID: "R04.1", Props: []string{"C04"}, Floor: 10, Title: "every cluster-level entry point that can reach Consensus.LogPin/LogUnpin does so only behind the follower-mode guard (interprocedural, RPC stitched)", Run: r041},
-		&Rule{ID: "R04.2", Props: []string{"C04"}, Floor: 14, Title: "PinOptions.Equals and Pin.Equals compare every field on both operands; map fields are compared in both directions", Run: r042},
+		&Rule{ID: "R04.2", Props: []string{"C04", "C03"}, Floor: 14, Title: "PinOptions.Equals and Pin.Equals compare every field on both operands; map fields are compared in both directions", Run: r042},
 		&Rule{ID: "R04.3", Props: []string{"C04"}, Floor: 6, Title: "pin(): LogPin only after setupPin succeeded; setupPin validates factors, expiry, type and mode", Run: r043},
 		&Rule{ID: "R04.4", Props: []string{"C04"}, Floor: 4, Title: "Unpin dispatches exhaustively on the pin type; only data and meta pins are unpinned, after the pin was found", Run: r044},
 		&Rule{ID: "R04.5", Props: []string{"C04"}, Floor: 3, Title: "PinUpdate never unpins and logs the stored source pin with only cid, update source, name and expiry replaced", Run: r045},
-		&Rule{ID: "R04.6", Props: []string{"C04"}, Floor: 1, Title: "the same-options shortcut (keep existing allocations) requires an existing pin, equal options and an empty exclusion list", Run: r046},
+		&Rule{ID: "R04.6", Props: []string{"C04", "C03"}, Floor: 1, Title: "the same-options shortcut (keep existing allocations) requires an existing pin, equal options and an empty exclusion list", Run: r046},
 	)
 }
 
